@@ -365,8 +365,10 @@ RTRLIB_EXPORT int rtr_mgr_init(struct rtr_mgr_config **config_out, struct rtr_mg
 
 	for (unsigned int i = 0; i < groups_len; i++) {
 		cg = lrtr_malloc(sizeof(struct rtr_mgr_group));
-		if (!cg)
+		if (!cg) {
+			err_code = RTR_ERROR;
 			goto err;
+		}
 
 		memcpy(cg, &groups[i], sizeof(struct rtr_mgr_group));
 
@@ -376,8 +378,10 @@ RTRLIB_EXPORT int rtr_mgr_init(struct rtr_mgr_config **config_out, struct rtr_mg
 			goto err;
 
 		group_node = lrtr_malloc(sizeof(struct rtr_mgr_group_node));
-		if (!group_node)
+		if (!group_node) {
+			err_code = RTR_ERROR;
 			goto err;
+		}
 
 		group_node->group = cg;
 		tommy_list_insert_tail(&config->groups->list, &group_node->node, group_node);
@@ -559,8 +563,10 @@ RTRLIB_EXPORT int rtr_mgr_add_group(struct rtr_mgr_config *config, const struct 
 		goto err;
 
 	new_group_node = lrtr_malloc(sizeof(struct rtr_mgr_group_node));
-	if (!new_group_node)
+	if (!new_group_node) {
+		err_code = RTR_ERROR;
 		goto err;
+	}
 
 	new_group_node->group = new_group;
 	tommy_list_insert_tail(&config->groups->list, &new_group_node->node, new_group_node);
